@@ -420,11 +420,11 @@ def ev_sync(ctx, enc, data, cut, truncated):
             evs += k
             raws += r
         else:
-            # "the remainder arrives before the completion timeout": complete_wait is 0.5 s and the second
+            # "the remainder arrives before the completion timeout": complete_wait is 3 s and the second
             # chunk is written 2 ms after the first by a timer thread, so the oracle is fair both to an
             # implementation whose get_input() returns at once with the sequence pending (today's) and to
             # one that blocks inside get_input() for up to complete_wait.
-            h.scr.set_input_timeouts(max_wait=0, complete_wait=0.5)
+            h.scr.set_input_timeouts(max_wait=0, complete_wait=3.0)  # 1500x the 2 ms gap: robust on a busy machine
             os.write(h.w, data[:cut])
             t = threading.Timer(0.002, os.write, (h.w, data[cut:]))
             t.start()
